@@ -30,6 +30,8 @@ impl<M: MovingAverageConstructor> Trix<M> {
 		r is Ok ==> r->Ok_0.tma.tma.value@ == src_val(candle, self.source) && r->Ok_0.change.window.view().len() == 1
 			&& r->Ok_0.change.window.view()[0]@ == src_val(candle, self.source),
 		r is Ok ==> r->Ok_0.cross1.up.last_delta@ == 0real && r->Ok_0.cross2.up.last_delta@ == 0real,
+		// C08: for an averaging kind that cannot overshoot, the constant state for the candle's source price (trix_const_step)
+		r is Ok && self.signal.convex_kind() ==> r->Ok_0.const_state(src_val(candle, self.source)),
 //@replace Ok(Self::Instance { ==> Ok(TRIXInstance {
 //@replace ReversalSignal::new(1, 1, &0.0)? ==> ReversalSignal::new3(1, 1, &R::lit(0, 1))?
 //@end
@@ -63,6 +65,35 @@ impl<M: MovingAverageConstructor> TRIXInstance<M> {
 //@end
 }
 
+// ---- C08 at indicator level (averaging kinds that cannot overshoot): Trix on a repeated candle: value 0, signal line 0, no signals
+pub proof fn lemma_ema_fix(pre: &EMA, x: ValueType, post: &EMA, out: ValueType)
+	requires pre.value@ == x@, EMA::step(pre, &x, post, &out)
+	ensures out@ == x@, post.value@ == x@
+{
+	assert(pre.alpha@ * (x@ - x@) == 0real) by(nonlinear_arith);
+}
+impl<M: MovingAverageConstructor> TRIXInstance<M> {
+	pub open spec fn const_state(&self, s: real) -> bool {
+		&&& self.inv() && self.tma.dma.ema.value@ == s && self.tma.dma.dma.value@ == s && self.tma.tma.value@ == s
+		&&& self.change.window.view().len() == 1 && self.change.window.view()[0]@ == s
+		&&& self.sig.convex() && self.sig.within(0real, 0real) && reversal_const_state(&self.reverse, 0real)
+		&&& self.cross1.up.last_delta@ == 0real && self.cross2.up.last_delta@ == 0real
+	}
+}
+pub proof fn trix_const_step<M: MovingAverageConstructor>(pre: &TRIXInstance<M>, src: ValueType, post: &TRIXInstance<M>, value: ValueType, sigline: ValueType, s1: Action, s2: Action, s3: Action, tma: ValueType, zero: ValueType)
+	requires pre.const_state(src@), post.inv(), trix_step(pre, src, post, value, sigline, s1, s2, s3, tma, zero)
+	ensures value@ == 0real, sigline@ == 0real, sv(s1) == 0, s2 is None, s3 is None, post.const_state(src@)
+{
+	let m1 = post.tma.dma.ema.value;
+	let m2 = post.tma.dma.dma.value;
+	lemma_ema_fix(&pre.tma.dma.ema, src, &post.tma.dma.ema, m1);
+	lemma_ema_fix(&pre.tma.dma.dma, m1, &post.tma.dma.dma, m2);
+	lemma_ema_fix(&pre.tma.tma, m2, &post.tma.tma, tma);
+	assert(value@ == 0real);
+	<M::Instance as MovingAverage>::lemma_within_step(&pre.sig, &value, &post.sig, &sigline, 0real, 0real);
+	reversal_const_step(&pre.reverse, value, &post.reverse, s1);
+}
+
 // ================================================================== CoppockCurve
 //@extract src/indicators/coppock_curve.rs struct:CoppockCurve
 //@end
@@ -90,6 +121,8 @@ impl<M: MovingAverageConstructor> CoppockCurve<M> {
 		r is Ok ==> self.ma1.seeded(0real, &r->Ok_0.ma1) && self.s3_ma.seeded(0real, &r->Ok_0.ma2),
 		r is Ok ==> r->Ok_0.pivot.high.left == self.s2_left && r->Ok_0.pivot.high.right == self.s2_right,
 		r is Ok ==> r->Ok_0.cross_over1.up.last_delta@ == 0real && r->Ok_0.cross_over2.up.last_delta@ == 0real,
+		// C08: for averaging kinds that cannot overshoot and a non-zero source price, the constant state for that price (coppock_const_step)
+		r is Ok && self.ma1.convex_kind() && self.s3_ma.convex_kind() && src_val(candle, self.source) != 0real ==> r->Ok_0.const_state(src_val(candle, self.source)),
 //@replace Ok(Self::Instance { ==> Ok(CoppockCurveInstance {
 //@replace ReversalSignal::new(cfg.s2_left, cfg.s2_right, &0.)? ==> ReversalSignal::new3(cfg.s2_left, cfg.s2_right, &R::lit(0, 1))?
 //@end
@@ -153,6 +186,8 @@ impl<M: MovingAverageConstructor> AwesomeOscillator<M> {
 		r is Ok ==> self.ma1.seeded(src_val(candle, self.source), &r->Ok_0.ma1) && self.ma2.seeded(src_val(candle, self.source), &r->Ok_0.ma2),
 		r is Ok ==> r->Ok_0.reverse.high.left == self.left && r->Ok_0.reverse.high.right == self.right,
 		r is Ok ==> r->Ok_0.low_peaks == 0 && r->Ok_0.high_peaks == 0 && r->Ok_0.cross_over.up.last_delta@ == 0real,
+		// C08: for averaging kinds that cannot overshoot, the constant state for the candle's source price (awesome_const_step)
+		r is Ok && self.ma1.convex_kind() && self.ma2.convex_kind() ==> r->Ok_0.const_state(src_val(candle, self.source)),
 //@replace Ok(Self::Instance { ==> Ok(AwesomeOscillatorInstance {
 //@replace Method::new((cfg.left, cfg.right), &0.0)? ==> <ReversalSignal as Method>::new((cfg.left, cfg.right), &R::lit(0, 1))?
 //@end
@@ -201,6 +236,49 @@ impl<M: MovingAverageConstructor> AwesomeOscillatorInstance<M> {
 //@hint result
 	proof { assert(awesome_step(old(self), src, self, r.vals()[0], r.sigs()[0], r.sigs()[1], m1__, m2__, piv__, mk(0real))); }
 //@end
+}
+
+// ---- C08 at indicator level (averaging kinds that cannot overshoot, non-zero source price): CoppockCurve and AwesomeOscillator on a repeated candle
+pub open spec fn all_eq(v: Seq<R>, s: real) -> bool { forall|i: int| 0 <= i < v.len() ==> (#[trigger] v[i])@ == s }
+pub proof fn lemma_roc_const(pre: &RateOfChange, x: ValueType, post: &RateOfChange, out: ValueType)
+	requires pre.inv(), all_eq(pre.0.view(), x@), x@ != 0real, RateOfChange::step(pre, &x, post, &out)
+	ensures out@ == 0real, all_eq(post.0.view(), x@)
+{
+	let v = post.0.view();
+	assert forall|i: int| 0 <= i < v.len() implies (#[trigger] v[i])@ == x@ by { if i < v.len() - 1 { assert(v[i] == pre.0.view()[i + 1]); } }
+	assert(pre.0.view()[0]@ == x@);
+	assert(0real / x@ == 0real) by(nonlinear_arith) requires x@ != 0real;
+}
+impl<M: MovingAverageConstructor> CoppockCurveInstance<M> {
+	pub open spec fn const_state(&self, s: real) -> bool {
+		&&& self.inv() && s != 0real && all_eq(self.roc1.0.view(), s) && all_eq(self.roc2.0.view(), s)
+		&&& self.ma1.convex() && self.ma2.convex() && self.ma1.within(0real, 0real) && self.ma2.within(0real, 0real)
+		&&& reversal_const_state(&self.pivot, 0real) && self.cross_over1.up.last_delta@ == 0real && self.cross_over2.up.last_delta@ == 0real
+	}
+}
+pub proof fn coppock_const_step<M: MovingAverageConstructor>(pre: &CoppockCurveInstance<M>, src: ValueType, post: &CoppockCurveInstance<M>, v1: ValueType, v2: ValueType, s1: Action, s2: Action, s3: Action, r1: ValueType, r2: ValueType, sum: ValueType, zero: ValueType)
+	requires pre.const_state(src@), post.inv(), coppock_step(pre, src, post, v1, v2, s1, s2, s3, r1, r2, sum, zero)
+	ensures v1@ == 0real, v2@ == 0real, s1 is None, sv(s2) == 0, s3 is None, post.const_state(src@)
+{
+	lemma_roc_const(&pre.roc1, src, &post.roc1, r1);
+	lemma_roc_const(&pre.roc2, src, &post.roc2, r2);
+	<M::Instance as MovingAverage>::lemma_within_step(&pre.ma1, &sum, &post.ma1, &v1, 0real, 0real);
+	<M::Instance as MovingAverage>::lemma_within_step(&pre.ma2, &v1, &post.ma2, &v2, 0real, 0real);
+	reversal_const_step(&pre.pivot, v1, &post.pivot, s2);
+}
+impl<M: MovingAverageConstructor> AwesomeOscillatorInstance<M> {
+	pub open spec fn const_state(&self, s: real) -> bool {
+		&&& self.inv() && self.ma1.convex() && self.ma2.convex() && self.ma1.within(s, s) && self.ma2.within(s, s)
+		&&& reversal_const_state(&self.reverse, 0real) && self.cross_over.up.last_delta@ == 0real && self.low_peaks == 0 && self.high_peaks == 0
+	}
+}
+pub proof fn awesome_const_step<M: MovingAverageConstructor>(pre: &AwesomeOscillatorInstance<M>, src: ValueType, post: &AwesomeOscillatorInstance<M>, value: ValueType, s1: Action, s2: Action, m1: ValueType, m2: ValueType, piv: Action, zero: ValueType)
+	requires pre.const_state(src@), post.inv(), awesome_step(pre, src, post, value, s1, s2, m1, m2, piv, zero)
+	ensures value@ == 0real, s1 is None, s2 is None, post.const_state(src@)
+{
+	<M::Instance as MovingAverage>::lemma_within_step(&pre.ma2, &src, &post.ma2, &m2, src@, src@);
+	<M::Instance as MovingAverage>::lemma_within_step(&pre.ma1, &src, &post.ma1, &m1, src@, src@);
+	reversal_const_step(&pre.reverse, value, &post.reverse, piv);
 }
 } // verus!
 fn main() {}
